@@ -135,6 +135,35 @@ def ob_no_stall_and_idle_flags(nw: int, b0: bool, b1: bool, b2: bool, q: int, wk
     return n_idle <= 1
 
 
+@obligation(quick=90, thorough=300, partitions_quick=[f"nw == {n}" for n in (1, 2, 3)], partitions_thorough=[f"nw == {n} and q == {k}" for n in (1, 2, 3) for k in (0, 1, 2, 3)],
+            what="a resumed / continued run (rewind_in_progress from ANY deserialized shape: any busy slots, any queue length, also on the second "
+                 "step): afterwards no step has queued events while it is below its worker limit, every interrupted and queued event is still "
+                 "there exactly once, and one worker is started per admitted event",
+            bounds={"num_workers": "1..3", "queue of step a": "0..3", "interrupted invocations": "0..3", "step b": "idle / busy, queue 0..2"})
+def ob_rewind_no_stall(nw: int, b0: bool, b1: bool, b2: bool, q: int, bb: bool, bq: int) -> bool:
+    """
+    pre: 1 <= nw <= 3 and 0 <= q <= 3 and 0 <= bq <= 2
+    post: _
+    """
+    from workflows.runtime.control_loop import rewind_in_progress
+    from workflows.runtime.types.commands import CommandRunWorker
+
+    st = world_ab(nw, b0, b1, b2, q, b_busy=bb, b_q=bq)      # deliberately NOT REP
+    before = {n: len(ws.in_progress) + len(ws.queue) for n, ws in st.workers.items()}
+    st2, cmds = rewind_in_progress(st, 1)
+    if not (rep_R1(st2) and rep_R2(st2)):
+        return False
+    for n, ws in st2.workers.items():
+        if len(ws.in_progress) + len(ws.queue) != before[n]:
+            return False
+        started = [c for c in cmds if isinstance(c, CommandRunWorker) and c.step_name == n]
+        if len(started) != len(ws.in_progress):
+            return False
+        if ws.queue and len(ws.in_progress) < ws.config.num_workers:
+            return False
+    return True
+
+
 class _Adapter(InternalRunAdapter):
     def __init__(self, now: int = 0) -> None:
         self.now = now
